@@ -616,6 +616,8 @@ def _derivation(m, e, params, seen=None):
         return None
     if isinstance(e, ast.Call) and isinstance(e.func, ast.Attribute) and e.func.attr in ("strip", "lstrip", "rstrip") and not e.args:
         return _derivation(m, e.func.value, params, seen)
+    if isinstance(e, ast.Call) and (dotted(e.func) or "") in ("str", "str.__str__", "str.strip") and len(e.args) == 1 and not e.keywords:
+        return _derivation(m, e.args[0], params, seen)        # the same text as a plain str (normalising a str subclass)
     if isinstance(e, ast.Call) and isinstance(e.func, ast.Attribute):
         return f".{e.func.attr}(…)"
     return f"`{short(e, 40)}`"
